@@ -303,6 +303,17 @@ NEGATIVE = [
     let v; { let a = Bump::new(); v = BString::new_in(&a); } touch(&v);"""),
     ("box_outlives_arena", """
     let v; { let a = Bump::new(); v = BBox::new_in(1u8, &a); } touch(&v);"""),
+    ("boxed_array_into_slice_outlives_arena", """
+    let s: BBox<[u32]>; { let a = Bump::new(); s = BBox::new_in([1u32; 4], &a).into(); } touch(&s);"""),
+    ("boxed_array_into_static_slice", """
+    let a = Bump::new(); let s: BBox<'static, [u32]> = BBox::new_in([1u32; 4], &a).into(); touch(&s);"""),
+    ("boxed_slice_try_into_array_outlives_arena", """
+    let s: BBox<[u32; 2]>; { let a = Bump::new(); let b: BBox<[u32]> = BBox::new_in([1u32; 2], &a).into(); s = BBox::try_from(b).ok().unwrap(); } touch(&s);"""),
+    ("boxed_conversions_outlive_arena", """
+    let s1; let s3;
+    { let a = Bump::new(); let v = bumpalo::vec![in &a; 1u8, 2]; s1 = v.into_boxed_slice(); }
+    { let a = Bump::new(); s3 = BBox::<[u8]>::from_iter_in([1u8, 2], &a); }
+    touch(&s1); touch(&s3);"""),
     ("into_bump_slice_outlives_arena", """
     let s; { let a = Bump::new(); let v = bumpalo::vec![in &a; 1u8]; s = v.into_bump_slice(); } touch(&s);"""),
     ("into_bump_str_outlives_arena", """
